@@ -178,7 +178,14 @@ impl Check for SpscCheck {
                         *p = (next + i as u64) as u32;
                     }
                     b3.store(next + k, Ordering::SeqCst);
-                    wb.produce(k as usize, &[]);
+                    // Every 7th sample carries a tag whose value is its index:
+                    // tags must stay attached to their sample under every
+                    // interleaving.
+                    let tags: Vec<rustradio::stream::Tag> = (0..k)
+                        .filter(|i| (next + i) % 7 == 0)
+                        .map(|i| rustradio::stream::Tag::new(i as usize, "idx", rustradio::stream::TagValue::U64(next + i)))
+                        .collect();
+                    wb.produce(k as usize, &tags);
                     d3.store(next + k, Ordering::SeqCst);
                     next += k;
                 }
@@ -196,7 +203,7 @@ impl Check for SpscCheck {
                 }
                 let exited_before = prod_exited.load(Ordering::SeqCst);
                 let lo = done.load(Ordering::SeqCst).saturating_sub(seen);
-                let (rb, _tags) = match r.read_buf() {
+                let (rb, tags) = match r.read_buf() {
                     Ok(x) => x,
                     Err(e) => {
                         e2.lock().unwrap().push(("C03:read_buf-err".into(), e.to_string()));
@@ -213,6 +220,19 @@ impl Check for SpscCheck {
                 if let Some(i) = (0..sl.len()).find(|&i| sl[i] != (seen + i as u64) as u32) {
                     e2.lock().unwrap().push(("C03:sequence".into(), format!("read window sample {i} is {} but the committed sequence has {} there (window of {len} after {seen} consumed)", sl[i], seen + i as u64)));
                     break;
+                }
+                // Tags: exactly the multiples of 7 inside the window, each with
+                // its own index as value, at the right window position.
+                {
+                    let want: Vec<(usize, u64)> = (0..len).filter(|i| (seen + i) % 7 == 0).map(|i| (i as usize, seen + i)).collect();
+                    let got: Vec<(usize, u64)> = tags
+                        .iter()
+                        .map(|t| (t.pos(), if let rustradio::stream::TagValue::U64(v) = t.val() { *v } else { u64::MAX }))
+                        .collect();
+                    if got != want {
+                        e2.lock().unwrap().push(("C03:tags".into(), format!("read window of {len} after {seen} consumed reports tags {:?}, expected {:?}", got.iter().take(6).collect::<Vec<_>>(), want.iter().take(6).collect::<Vec<_>>())));
+                        break;
+                    }
                 }
                 if len == 0 {
                     drop(rb);
